@@ -486,6 +486,27 @@ func remFactsOf(gs []guardFact) []remFact {
 		if op != token.EQL {
 			continue
 		}
+		// (P / Q) * Q == P says the same as P % Q == 0
+		divMul := false
+		for _, side := range [][2]ssa.Value{{g.cmp.X, g.cmp.Y}, {g.cmp.Y, g.cmp.X}} {
+			mul, isMul := ir.StripConv(side[0]).(*ssa.BinOp)
+			if !isMul || mul.Op != token.MUL {
+				continue
+			}
+			for _, fs := range [][2]ssa.Value{{mul.X, mul.Y}, {mul.Y, mul.X}} {
+				quo, isQ := ir.StripConv(fs[0]).(*ssa.BinOp)
+				if !isQ || quo.Op != token.QUO || resolvedPath(quo.Y) != resolvedPath(fs[1]) {
+					continue
+				}
+				if affineOf(quo.X, 0).equal(affineOf(side[1], 0)) {
+					out = append(out, remFact{affineOf(quo.X, 0), resolvedPath(quo.Y)})
+					divMul = true
+				}
+			}
+		}
+		if divMul {
+			continue
+		}
 		rem, ok := ir.StripConv(g.cmp.X).(*ssa.BinOp)
 		z := g.cmp.Y
 		if !ok || rem.Op != token.REM {
